@@ -5,6 +5,7 @@ package time
 
 import (
 	"time"
+	"unsafe"
 
 	"verif.local/sim/rt"
 )
@@ -131,13 +132,22 @@ type Timer struct {
 	ev     *rt.Event
 	f      func()
 	active bool
+	tok    byte // happens-before from arming the timer to running its function (as the real AfterFunc gives)
 }
+
+func (t *Timer) run() {
+	t.acquire()
+	t.f()
+}
+
+//go:norace
+func (t *Timer) acquire() { rt.RaceAcquire(unsafe.Pointer(&t.tok)) }
 
 //go:norace
 func (t *Timer) Fire() {
 	t.active = false
 	if t.f != nil {
-		rt.Go("time.AfterFunc", t.f)
+		rt.Go("time.AfterFunc", t.run)
 		return
 	}
 	rt.RaceDisable()
@@ -166,6 +176,7 @@ func (t *Timer) arm(d Duration) {
 		d = 0
 	}
 	t.active = true
+	rt.RaceRelease(unsafe.Pointer(&t.tok))
 	t.ev = rt.After(int64(d), t)
 }
 
